@@ -84,6 +84,11 @@ class BUnit:
                 return any(a)
             return z3.Or(*[z3.BoolVal(x) if isinstance(x, bool) else x for x in a])
         ns["AND"], ns["OR"] = AND, OR
+        lift = lambda x: x if isinstance(x, D) else D.lift(x)
+        ns["max_"] = lambda a, b: S.ITE(val(lift(a)) >= val(lift(b)), lift(a), lift(b))       # std::max / std::min / std::abs on reals as if-then-else terms
+        ns["min_"] = lambda a, b: S.ITE(val(lift(a)) <= val(lift(b)), lift(a), lift(b))
+        ns["abs_"] = lambda a: S.ITE(val(lift(a)) >= 0, lift(a), -lift(a))
+        ns["NOT"] = lambda c: (not c) if isinstance(c, (bool, int)) else z3.Not(c)     # for `!(symbolic condition)`: Python's `not` cannot negate a term
         self.precond_violations = []
         def ASSERT(c, text):
             """a kept assert of the real code = precondition obligation of that function at this call"""
